@@ -140,35 +140,48 @@ Proof.
 Qed.
 Print Assumptions c18_bump_never_lowers.
 
-(* feed never ends above its demand schedule (nor above feed + requested increase), for ARBITRARY inputs *)
+(* feed never ends above its demand schedule (nor above feed + the positive part of the requested increase),
+   for ARBITRARY inputs *)
 Theorem c18_bump_feed_ceiling : forall b f inc maxb maxf avail m, (m < List.length b)%nat ->
   nth m (snd (bump b f inc maxb maxf avail)) 0 <= Qmax (nth m f 0) (nth m maxf 0) /\
-  nth m (snd (bump b f inc maxb maxf avail)) 0 <= Qmax (nth m f 0) (nth m f 0 + nth m inc 0).
+  nth m (snd (bump b f inc maxb maxf avail)) 0 <= nth m f 0 + Qmax (nth m inc 0) 0.
 Proof.
   intros b f inc maxb maxf avail m Hm. destruct (bump_nth b f inc maxb maxf avail m Hm) as [_ ->].
   apply bump1_feed_ceiling.
 Qed.
 Print Assumptions c18_bump_feed_ceiling.
 
-(* biofuel never ends above its demand schedule when both quantities start within their schedules and the
-   requested increase is non-negative *)
+(* biofuel never ends above its demand schedule (nor above biofuel + the positive part of the requested increase),
+   for ARBITRARY inputs: any sign of the increase and of the availability, quantities already above their demand
+   or not (the repaired code clamps both potential increases at 0) *)
+Theorem c18_bump_biofuel_ceiling_any : forall b f inc maxb maxf avail m, (m < List.length b)%nat ->
+  nth m (fst (bump b f inc maxb maxf avail)) 0 <= Qmax (nth m b 0) (nth m maxb 0) /\
+  nth m (fst (bump b f inc maxb maxf avail)) 0 <= nth m b 0 + Qmax (nth m inc 0) 0.
+Proof.
+  intros b f inc maxb maxf avail m Hm. destruct (bump_nth b f inc maxb maxf avail m Hm) as [-> _].
+  apply bump1_biofuel_ceiling_any.
+Qed.
+Print Assumptions c18_bump_biofuel_ceiling_any.
+
+(* corollary, the in-domain form: starting within the schedule, biofuel stays within it *)
 Theorem c18_bump_biofuel_ceiling : forall b f inc maxb maxf avail m, (m < List.length b)%nat ->
   nth m b 0 <= nth m maxb 0 -> nth m f 0 <= nth m maxf 0 -> 0 <= nth m inc 0 ->
   nth m (fst (bump b f inc maxb maxf avail)) 0 <= nth m maxb 0 /\
   nth m (fst (bump b f inc maxb maxf avail)) 0 <= nth m b 0 + nth m inc 0.
 Proof.
-  intros b f inc maxb maxf avail m Hm H1 H2 H3. destruct (bump_nth b f inc maxb maxf avail m Hm) as [-> _].
-  apply bump1_biofuel_ceiling; assumption.
+  intros b f inc maxb maxf avail m Hm H1 _ H3.
+  destruct (c18_bump_biofuel_ceiling_any b f inc maxb maxf avail m Hm) as [A B].
+  rewrite (Q.max_r _ _ H1) in A. rewrite (Q.max_l _ _ H3) in B. split; assumption.
 Qed.
 Print Assumptions c18_bump_biofuel_ceiling.
 
-(* ... and that hypothesis cannot be dropped: with feed already above its demand, biofuel can be pushed above
-   its own demand (all inputs non-negative).  Refutation of the unrestricted clause on the model. *)
-Theorem c18_bump_biofuel_ceiling_needs_domain :
+(* the code before the clamp fix violated the biofuel clause: with feed already above its demand, biofuel was
+   pushed above its own demand (all inputs non-negative) *)
+Theorem c18_biofuel_above_demand_before_clamp_fix :
   exists b f inc maxb maxf avail, 0 <= b /\ b <= maxb /\ 0 <= f /\ 0 <= inc /\ 0 <= avail /\ maxf < f /\
-    maxb < fst (bump1 b f inc maxb maxf avail).
-Proof. exact bump1_biofuel_ceiling_needs_domain. Qed.
-Print Assumptions c18_bump_biofuel_ceiling_needs_domain.
+    maxb < fst (bump1_before_clamp_fix b f inc maxb maxf avail).
+Proof. exact bump1_before_clamp_fix_refuted. Qed.
+Print Assumptions c18_biofuel_above_demand_before_clamp_fix.
 
 (* the code before fix 5ea9ff8 violated the feed clause inside the domain (regulariser leak) *)
 Theorem c18_feed_above_demand_before_fix :
@@ -208,6 +221,10 @@ Proof.
   split; [|vm_compute; reflexivity]. eexists. split; [vm_compute; reflexivity|].
   (repeat (constructor; [vm_compute; reflexivity|])); constructor.
 Qed.
+
+(* the witness of the repaired defect: the current code leaves biofuel at its level (9 <= demand 10) *)
+Example ex_bump_out_of_domain : fst (bump1 9 5 1 10 2 0) <= 10 /\ 10 < fst (bump1_before_clamp_fix 9 5 1 10 2 0).
+Proof. vm_compute. split; discriminate || reflexivity. Qed.
 
 Example ex_bump_domain : exists b f inc maxb maxf avail, b <= maxb /\ f <= maxf /\ 0 <= inc /\
   b < fst (bump1 b f inc maxb maxf avail) /\ f < snd (bump1 b f inc maxb maxf avail) /\
